@@ -309,9 +309,25 @@ func vfC07Schedule(res *vfResult, idx int) {
 	var wg sync.WaitGroup
 	ctx, cancel := context.WithTimeout(context.Background(), 20*time.Second)
 	defer cancel()
-	wg.Add(2)
-	go func() { defer wg.Done(); p.C.Err = p.C.Conn.HandshakeContext(ctx) }()
-	go func() { defer wg.Done(); p.S.Err = p.S.Conn.HandshakeContext(ctx) }()
+	var hs sync.WaitGroup
+	hs.Add(2)
+	go func() { defer hs.Done(); p.C.Err = p.C.Conn.HandshakeContext(ctx) }()
+	go func() { defer hs.Done(); p.S.Err = p.S.Conn.HandshakeContext(ctx) }()
+	wg.Add(1)
+	go func() {
+		// an application closes a connection whose handshake failed. Without this a Write that was
+		// issued before the handshake re-runs it under context.Background() once the failed attempt
+		// releases the handshake mutex and never returns (write deadlines do not bound the implicit
+		// handshake; see DESIGN.md, C16 observations).
+		defer wg.Done()
+		hs.Wait()
+		if p.C.Err != nil {
+			_ = p.C.Conn.Close()
+		}
+		if p.S.Err != nil {
+			_ = p.S.Conn.Close()
+		}
+	}()
 	for _, side := range []*vfSide{p.C, p.S} {
 		for g := 0; g < 3; g++ {
 			pl := append([]byte(fmt.Sprintf("c07s-%d-%s-%d-", idx, side.Name, g)), vfRandBytes(r, 24)...)
